@@ -415,6 +415,12 @@ func FamilyRef(thorough bool, seed int64) []*Skeleton {
 		mk("cycle-pointer", root, J{}, map[string]string{"c": "ca.json"}, cyc("#/$defs/x"), false)
 		mk("cycle-root", root, J{}, map[string]string{"c": "ca.json"}, cyc(""), false)
 		mk("cycle-anchor", root, J{}, map[string]string{"c": "ca.json"}, cyc("#x"), false)
+		// a cycle through the retrieval URIs of documents whose canonical $id is elsewhere
+		acyc := map[string]string{
+			rel("ya.json"): `{"$id":"http://canon/ya.json","type":"object","properties":{"next":{"$ref":"` + rel("yb.json") + `"}}}`,
+			rel("yb.json"): `{"$id":"http://canon/yb.json","type":"object","properties":{"back":{"$ref":"` + rel("ya.json") + `"}}}`,
+		}
+		mk("cycle-aliased", root, J{}, map[string]string{"c": "ya.json"}, acyc, false)
 		dia := func(frag string) map[string]string {
 			return map[string]string{
 				rel("db.json"): `{"$anchor":"x","const":70,"$defs":{"x":{"const":71}}}`,
